@@ -12,8 +12,8 @@ POINT_VECS = ('untransformed_position', 'untransformed_gradient', 'transformed_p
 
 class Setup:
     """a real TransformedHamiltonian<M, T> over the Math environment, T = DiagMassMatrix or LowRankMassMatrix (rank 0 / 1)"""
-    def __init__(self, mir, L, d, tkind, kkind, logp_mode='uf'):
-        self.mir = mir; self.L = L; self.d = d; self.tkind = tkind; self.kkind = kkind
+    def __init__(self, mir, L, d, tkind, kkind, logp_mode='uf', factor_mode=False):
+        self.factor_mode = factor_mode; self.mir = mir; self.L = L; self.d = d; self.tkind = tkind; self.kkind = kkind
         A = self.A = RealAlg()
         inst = {'T': ('DiagMassMatrix', None)} if tkind == 'diag' else {'T': ('LowRankMassMatrix', None)}
         vm = self.vm = VM(mir, A, inst=inst, timeout_ms=1500); vm.unknown_is_feasible = True; self.env = MathEnv(vm, d, logp_mode, L); self.se = StateEnv(vm, mir); install_misc(vm)
@@ -25,7 +25,7 @@ class Setup:
         self.transformation = self.make_transformation()
         en = vm.enums['KineticEnergyKind']
         self.eps = A.fresh('eps')
-        ham = L.make('TransformedHamiltonian', {'ones': Seq([A.const(1.0)] * d), 'zeros': Seq([A.const(0.0)] * d), 'step_size': self.eps, 'momentum_decoherence_length': NONE(),
+        ham = L.make('TransformedHamiltonian', {'ones': Seq([A.const(1.0)] * d), 'zeros': Seq([A.const(0.0)] * d), 'step_size': (A.const(1.0) if factor_mode else self.eps), 'momentum_decoherence_length': NONE(),
                                                 'transformation': self.transformation, 'kinetic_energy_kind': Enum(en.index(kkind), kkind, (), 'KineticEnergyKind'), 'pool': Opaque('pool')})
         self.hc = self.m.alloc(ham)
         self.m.pc += self.pre
@@ -38,7 +38,7 @@ class Setup:
         outs = self.vm.run(st, [Ref(dc), self.math, Ref(m.alloc(Seq(self.sigma))), Ref(m.alloc(Seq(self.mu)))], m)
         assert len(outs) == 1 and outs[0][1] == 'ret'
         diag = m.mem[dc]
-        self.logdet_diag = L.get('DiagMassMatrix', diag, 'logdet')
+        self.logdet_diag = L.get('DiagMassMatrix', diag, 'logdet'); self.diag_id_after = L.get('DiagMassMatrix', diag, 'id')
         if self.tkind == 'diag':
             self.tid = L.get('DiagMassMatrix', diag, 'id'); self.logdet = self.logdet_diag
             return diag
@@ -110,7 +110,7 @@ class Setup:
     def leapfrog(self, m, h, direction):
         lf = self.mir.method('TransformedHamiltonian', 'Hamiltonian', 'leapfrog'); A = self.A; vm = self.vm
         sc = m.alloc(h)
-        args = [Ref(self.hc), self.math, Ref(sc), Enum(vm.enums['Direction'].index(direction), direction, (), 'Direction'), A.const(1.0), A.fresh('baseline'), A.fresh('max_energy_error'), Ref(m.alloc(Opaque('coll')))]
+        args = [Ref(self.hc), self.math, Ref(sc), Enum(vm.enums['Direction'].index(direction), direction, (), 'Direction'), (self.eps if self.factor_mode else A.const(1.0)), A.fresh('baseline'), A.fresh('max_energy_error'), Ref(m.alloc(Opaque('coll')))]
         return list(vm.exec_fn(m, lf, args))
 
     def point(self, m, h):
@@ -135,6 +135,7 @@ def run(rep):
             leapfrog_textbook(rep, mir, L, d, tkind)
             transformation(rep, mir, L, d, tkind)
             init_trajectory(rep, mir, L, d, tkind)
+    step_size_factor(rep, mir, L)
     for d in dims: exact_normal(rep, mir, L, d)
     for d in dims:
         for tkind in ('diag', 'lowrank1'):
@@ -213,9 +214,32 @@ def leapfrog_textbook(rep, mir, L, d, tkind):
             _check(rep, 'C02.a original-space momentum: v\' = F^T p\' with the textbook p\' = p_half + eps/2 grad(x\'), v = F^T p (%s)' % tag, 'textbook.momentum.%s' % tkind, pre + lemma + [z3.Or(*[out['velocity'][i] != v1_ref[i] for i in range(d)])], 'momentum deviates from the textbook leapfrog', timeout=120000)
         rep.absorb_vm(S.vm)
 
+def step_size_factor(rep, mir, L):
+    """the step actually taken is step_size x step_size_factor (MCLMC retries pass factors 1/2, 1/4, ...): the same whitened-scheme obligations with the
+    Hamiltonian's step size fixed to 1 and the factor symbolic"""
+    for kk in ('Euclidean', 'ExactNormal'):
+        for direction in ('Forward', 'Backward'):
+            sign = 1 if direction == 'Forward' else -1; d = 1
+            S = Setup(mir, L, d, 'diag', kk, factor_mode=True); A = S.A
+            h, st = S.consistent_start(free=True); eps = sign * S.eps.v
+            outs = S.leapfrog(S.m, h, direction); rep.paths += len(outs)
+            oks = [(m, v) for (m, k, v) in outs if k == 'ret' and v.name == 'Ok']
+            rep.cover('C02.f leapfrog with a symbolic step-size factor has a feasible Ok path (%s %s)' % (kk, direction), bool(oks))
+            for (m, v) in oks:
+                out = S.point(m, v.f[0]); pre = S.pre + m.pc
+                if kk == 'Euclidean':
+                    vh = [st['v'][i] + eps / 2 * st['tg'][i] for i in range(d)]; y1 = [st['y'][i] + eps * vh[i] for i in range(d)]
+                    cons = [out['transformed_position'][i] != y1[i] for i in range(d)]
+                else:
+                    used = [(n, a, t) for (n, a, t) in A.used if n in ('sin', 'cos')]
+                    cons = [used[0][1][0] != eps] if used else [z3.BoolVal(True)]
+                _check(rep, 'C02.f the step taken is step_size x step_size_factor, signed by the direction (%s %s)' % (kk, direction), 'leapfrog.factor', pre + [z3.Or(*cons)], 'the effective step size is not step_size * step_size_factor')
+            rep.absorb_vm(S.vm)
+
 def transformation(rep, mir, L, d, tkind):
     """bijection, gradient pull-back, log-determinant"""
     S = Setup(mir, L, d, tkind, 'Euclidean'); A = S.A; vm = S.vm; m = S.m
+    if tkind == 'diag': _check(rep, 'C02.d DiagMassMatrix::set_transform bumps the transformation id (d=%d)' % d, 'transform.id', S.pre + S.m.pc + [S.diag_id_after != z3.Int('diag_id0') + 1], 'set_transform changes the transformation without changing its id: states keep stale whitened coordinates and no update event is reported')
     ty = 'DiagMassMatrix' if tkind == 'diag' else 'LowRankMassMatrix'
     tc = m.alloc(S.transformation)
     fwd = mir.method(ty, None, 'compute_untransformed_position'); inv = mir.method(ty, None, 'compute_transformed_position'); grad = mir.method(ty, None, 'compute_transformed_gradient')
